@@ -24,7 +24,10 @@ RULE = (
     "cases: generated channel programs (1-3 channels, 1-2 sender and 1-2 receiver tasks per side and direction, "
     "receive/iterate/timed-receive/callback receivers, 0-6 items per stream with fillers of every supported type, "
     "some larger than the pipe) on popen/bare/socket/proxied gateways with pipe capacities 1 B-64 KiB, read chunking "
-    "greedy/random/1-byte, stall faults, uniform/sticky/PCT schedules and 0-3 line preemptions.  Non-trivial = at least "
+    "greedy/random/1-byte, stall faults, uniform/sticky/PCT schedules and 0-3 line preemptions; plus two profiles: a timed "
+    "receive whose deadline coincides with the arrival of the last items and the close, and strict request/response "
+    "traffic with frames larger than the pipe (thread, main_thread_only and gevent workers, whose write end is a "
+    "buffered writer over short non-blocking writes).  Non-trivial = at least "
     "two items crossed the wire and the schedule had real choices; distinct = distinct event-log digests."
 )
 ASSUMPTIONS = [
